@@ -28,10 +28,22 @@ git apply -R "$OUT/patch.diff"
 DEMO_WITHOUT=pass; bash -c "$DEMO" >/tmp/confirm-$ID.demo-without 2>&1 || DEMO_WITHOUT=fail
 cd "$VERIF"
 git -C /repo worktree remove --force "$WT"
-# the official way: apply to /repo, run, undo straight afterwards
-git -C /repo apply "$OUT/patch.diff" || { echo "patch does not apply to /repo"; exit 2; }
-VERIF_EVIDENCE_DIR=/tmp/ev-seed-$ID ./run.sh "$PROP" quick > /tmp/confirm-$ID.check 2>&1; RC=$?
-git -C /repo checkout -- .
+if [ "${OFFICIAL:-1}" = "1" ]; then
+  # the official way: apply to /repo, run, undo straight afterwards
+  HOW="git -C /repo apply patch.diff; ./run.sh $PROP quick; git -C /repo checkout -- ."
+  git -C /repo apply "$OUT/patch.diff" || { echo "patch does not apply to /repo"; exit 2; }
+  VERIF_EVIDENCE_DIR=/tmp/ev-seed-$ID ./run.sh "$PROP" quick > /tmp/confirm-$ID.check 2>&1; RC=$?
+  git -C /repo checkout -- .
+else
+  # against a scratch worktree of /repo with the patch applied (used while a long sweep is reading /repo)
+  HOW="scratch worktree of /repo with patch.diff applied; VERIF_REPO=<worktree> ./run.sh $PROP quick (re-run the official way by sensitivity/rerun_seeds.sh)"
+  WT2=/tmp/wt-check-$ID
+  git -C /repo worktree remove --force "$WT2" 2>/dev/null
+  git -C /repo worktree add -q --detach "$WT2" HEAD || exit 2
+  git -C "$WT2" apply "$OUT/patch.diff" || { echo "patch does not apply"; exit 2; }
+  VERIF_REPO=$WT2 VERIF_EVIDENCE_DIR=/tmp/ev-seed-$ID ./run.sh "$PROP" quick > /tmp/confirm-$ID.check 2>&1; RC=$?
+  git -C /repo worktree remove --force "$WT2"
+fi
 rm -rf /tmp/ev-seed-$ID
 VLINE=$(grep -m1 '^VIOLATION' /tmp/confirm-$ID.check)
 CLAUSE=$(grep -m1 'clause=' /tmp/confirm-$ID.check | sed 's/^ *//')
@@ -42,7 +54,7 @@ json.dump({
  "origin": "independent sub-agent given only the property text and its own scratch worktree",
  "needs_to_manifest": open("$OUT/SEEDED.md").read()[:4000] if __import__("os").path.exists("$OUT/SEEDED.md") else "",
  "confirmed_in_scratch_worktree": {"go_build": "$BUILD", "go_test": "$GOTEST", "shell_fixtures": "$FIX ($NPASS PASS)", "demo_command": """$DEMO""", "demo_with_change": "$DEMO_WITH", "demo_without_change": "$DEMO_WITHOUT"},
- "check_run": {"how": "git -C /repo apply patch.diff; ./run.sh $PROP quick; git -C /repo checkout -- .", "exit_status": $RC, "violation_line": """$VLINE""", "clause": """$CLAUSE"""},
+ "check_run": {"how": """$HOW""", "exit_status": $RC, "violation_line": """$VLINE""", "clause": """$CLAUSE"""},
  "detected": $RC == 1
 }, open(sys.argv[1],"w"), indent=1)
 PY
